@@ -125,6 +125,24 @@ pub fn run(ctx: &Ctx) -> i32 {
     }
     let s1b = SubReport::new("characters", "A", &format!("every string of ≤ {} characters over {:?} ({} strings), plus clause pieces of length 3…1024 (every power of two ± 2) ending in a 2-, 3- or 4-byte character in each clause position: same entry points and oracle", cl, chars, nc), cacc);
 
+    // the whole character domain: every Unicode scalar value in every role a character can play in a text
+    let uacc = merge(par_fold(0x11_0000, Acc::new, |cp, acc| {
+        let Some(c) = char::from_u32(cp as u32) else { return };
+        for text in [
+            format!("cap_chown={}", c),
+            format!("cap_chown=e{}", c),
+            format!("cap_chown+{}p", c),
+            format!("cap_chown+e{}i", c),
+            format!("cap_chown{}e", c),
+            format!("cap_{}hown=p", c),
+            format!("{}=p", c),
+            format!("cap_chown{}cap_fowner=p", c),
+            format!("cap_chown=p{}cap_fowner+e", c),
+        ] {
+            check_text_in("unicode-scalars", &text, cp * 16, acc);
+        }
+    }));
+    let s1u = SubReport::new("unicode-scalars", "A", "every Unicode scalar value (1 112 064 characters) in nine roles — as a flag, between flags, between operator and flags, as the operator, inside a name, as a whole name, between two names, between two clauses: same oracle as for the token sequences (a character is what its code point says, not what its low byte or its case mapping says)", uacc);
     // every known capability name, in three spellings, in each position of a text; and its near misses
     let mut nacc = Acc::new();
     {
@@ -295,7 +313,7 @@ pub fn run(ctx: &Ctx) -> i32 {
     let s2 = SubReport::new("built", "A", "every grammar-accepted text of ≤ 3 (thorough 4) tokens given to FileOptions::caps, built, written, parsed: FILECAPS of the file equals the text", b);
     ctx.finish(
         "exploration",
-        vec![s1, s1b, s1c, s1d, s2],
+        vec![s1, s1b, s1u, s1c, s1d, s2],
         &["the recogniser in vlib::capsref implements the grammar of the property statement (group = operator followed by zero or more flags)", "strings longer than the token bound are not covered"],
         vec![],
     )
